@@ -31,7 +31,8 @@ PROPS = {
         "rule": "capacities 1..64 (1..4 oversampled), random Log/Filter sequences with 1..3 owners + nil owner, types 0..3, "
                 "lengths below/at/above/far above capacity; drained filters compared exactly with the loop mirror and the "
                 "lastN specification; undrained filters and 2..6 concurrent producers validated by the model as acceptor "
-                "(window of some admissible prefix; per-producer suffix order). non-trivial = distinct sequences",
+                "(window of some admissible prefix; per-producer suffix order); 2..5 concurrent Filter callers with different "
+                "arguments on a logger at rest, 300 calls each, every answer the sequential one. non-trivial = distinct sequences",
         "modelled": ["modelled, not verified: Go channels as FIFO lists with capacity 16; select fairness; Logger.Resize is out of scope"],
         "assumptions": ["G9.Logger mirrors log.go (checked by this check's differential run)",
                         "the logger goroutine is scheduled (no real-time bound is proved)"],
